@@ -119,6 +119,8 @@ def format_group(args):
         if dmg == "deleted": f.unlink()
         elif dmg == "emptied": f.write_bytes(b"")
         elif dmg == "garbage": f.write_bytes(bytes(rng.randrange(256) for _ in range(max(64, len(data)))))
+        elif dmg == "tail-cut": f.write_bytes(data[: max(1, len(data) - 4)])                      # e.g. the CRC / length trailer of a gzip stream
+        elif dmg == "tail-flip": f.write_bytes(data[:-3] + bytes([data[-3] ^ 0x10]) + data[-2:])
         else: f.write_bytes(data[: max(1, len(data) // 2)])
         res = {"damage": dmg, "pos": g["pos"], "passes": [], "skipped": False}
         if dmg != "deleted" and not reference_decoder_rejects(args["fmt"], args["comp"], f):
@@ -168,11 +170,11 @@ def run(ctx):
     combos = []
     fmts = ([("fb", ""), ("fb", "GZIP"), ("fb", "LZ4"), ("fb", "BZ2"), ("fb", "LZMA"), ("fb", "ZSTD"), ("fb", "ZLIB"), ("npz", ""), ("npz", "ZIP"), ("tfrec", ""), ("tfrec", "GZIP"), ("tfrec", "ZLIB")]
             if ctx.thorough else [("fb", ["", "LZ4", "ZSTD", "BZ2", "GZIP", "LZMA", "ZLIB"][ctx.seed % 7]), ("fb", "LZ4" if ctx.seed % 7 != 1 else "GZIP"), ("npz", ""), ("tfrec", "GZIP")])
-    results, skipped, distinct = [], 0, set()
+    results, skipped, distinct, tolerated = [], 0, set(), 0
     for fi, (fmt, comp) in enumerate(fmts):
         nshards = 5
         root = ctx.scratch / f"c07_{fi}"
-        damages = ["deleted", "emptied", "garbage", "truncated"]
+        damages = ["deleted", "emptied", "garbage", "truncated", "tail-cut", "tail-flip"]
         positions = [0, nshards // 2, nshards - 1]
         ifaces = [i for i in I.IFACES if I.supports(i, fmt, comp)]
         plan = []
@@ -201,7 +203,10 @@ def run(ctx):
                 r.update({"fmt": fmt, "comp": comp, "damage": g["damage"], "pos": g["pos"]})
                 results.append(r)
                 distinct.add((fmt, g["damage"], r["iface"], r["shuffle"] > 0))
-                if r["outcome"] != "raised":
+                complete = r["outcome"] == "ended" and sorted(r.get("got", [])) == sorted(res["written"]) and r.get("n") == len(res["written"])
+                if complete:
+                    tolerated += 1          # this interface's decoder read the damaged file completely: nothing was skipped
+                elif r["outcome"] != "raised":
                     ctx.report({"kind": r["outcome"], "iface": r["iface"]},
                                f"{fmt}/{comp or '-'} shard {g['pos']} {g['damage']}: {r['iface']} shuffle={r['shuffle']} T={r['T']} -> {r['outcome']}"
                                + (f" after yielding {r.get('n')} of {len(res['written'])} examples" if r["outcome"] == "ended" else ""),
@@ -224,9 +229,9 @@ def run(ctx):
                    {"correspondence": "M-POOL accepts(trace with failing input)", "theorem": "Sedpack.Pool.C07_pool_fault_raises", "cases": corr_bad[:3]}, name="corr", nofail=True)
     ctx.cov.update({
         "evaluations": len(results) + len(pres), "distinct_nontrivial": len(distinct), "traces_validated_against_impl": len(pres) - len(corr_bad),
-        "skipped_because_decoder_accepts": skipped,
-        "rule": "datasets of 5 shards (fb, npz, tfrec; compressions); damage in {deleted, emptied, garbage, truncated to half} at the first / middle / last shard; every interface, "
-                "shuffle 0 and 4, file_parallelism 1 and 3; each pass in its own process under a 60 s watchdog; outcome must be 'raised'; plus the lazy pool with a failing "
+        "skipped_because_decoder_accepts": skipped, "passes_that_delivered_everything_despite_damage": tolerated,
+        "rule": "datasets of 5 shards (fb, npz, tfrec; compressions); damage in {deleted, emptied, garbage, truncated to half, last 4 bytes cut, bit flipped in the last 3 bytes} at the first / middle / last shard; every interface, "
+                "shuffle 0 and 4, file_parallelism 1 and 3; each pass in its own process under a 60 s watchdog; outcome must be 'raised' (or, when that interface's decoder tolerates the damage, the *complete* set of examples); plus the lazy pool with a failing "
                 "loader under the deterministic scheduler (trace accepted by M-POOL, ending in the re-raised terminal state)",
         "samples": results[:3],
         "input_distribution": {"outcomes": collections.Counter(r["outcome"] for r in results), "by_iface": collections.Counter(r["iface"] for r in results),
